@@ -90,3 +90,23 @@ Example ex_stale : valid (run [Track kA; ValidateStale kA]) kA = false /\ valid 
                    valid (run [Track kA; Validate kA; ValidateStale kA]) kA = true /\
                    age [Track kA; Advance (sec 5); ValidateStale kA] kA = Some (sec 5).
 Proof. vm_compute. auto. Qed.
+
+(* further observables: regCount counts the times a registration was seen in its current life, a
+   registration is announced once per life, a connection on a live registration is an update *)
+Example ex_counters :
+  regcount (xrun [Track kA; TrackNX kA; Validate kA; Track kA]) kA = 3 /\
+  regcount (xrun [Track kA; Track kA; Advance (sec 601); Sweep; Validate kA]) kA = 1 /\
+  emits (run [Track kA]) (Validate kA) = [EvNew kA] /\
+  emits (run [Track kA; Validate kA]) (Validate kA) = [] /\
+  emits (run [Track kA; Validate kA; Advance (sec 601); Sweep]) (Validate kA) = [EvNew kA] /\
+  emits (run [Track kA]) (MarkActive kA) = [EvUpdate kA] /\
+  emits (run []) (MarkActive kA) = [] /\
+  emits (run h1) Sweep = [EvExpired 3 2].
+Proof. vm_compute. repeat split. Qed.
+
+(* the boundary instant: kept at exactly the limit, gone one nanosecond later *)
+Example ex_boundary_ns :
+  age [Track kA; Advance ten_min] kA = Some ten_min /\
+  tracked (run ([Track kA; Advance ten_min] ++ [Sweep])) kA = true /\
+  tracked (run ([Track kA; Advance ten_min; Advance 1] ++ [Sweep])) kA = false.
+Proof. vm_compute. repeat split. Qed.
